@@ -18,7 +18,8 @@ import gen_eems2  # noqa: E402
 GENERATORS = [("GenSigs.v", gen_sigs.generate), ("GenEems2.v", gen_eems2.generate)]
 
 for modname, fname in (("gen_exc", "GenExc.v"), ("gen_lex", "GenLex.v"), ("gen_grammar", "GenGrammar.v"),
-                       ("gen_facts", "GenFacts.v"), ("gen_cellfacts", "GenCellFacts.v"), ("gen_paramfacts", "GenParamFacts.v"), ("gen_effects", "GenEffects.v")):
+                       ("gen_facts", "GenFacts.v"), ("gen_cellfacts", "GenCellFacts.v"), ("gen_paramfacts", "GenParamFacts.v"), ("gen_effects", "GenEffects.v"),
+                       ("gen_cleanfx", "GenCleanEffects.v")):
     try:
         m = __import__(modname)
     except ImportError:
